@@ -363,7 +363,7 @@ int main(int argc, char** argv)
                 else if (kind == K_CAM) { ops[i] = c / 2; ans[i] = c % 2; }
                 else { ops[i] = c / 4; ans[i] = c % 4; }
             }
-            snprintf(g_casedesc, sizeof g_casedesc, "enum %s %d %llu", argv[2], len, idx);
+            snprintf(g_casedesc, sizeof g_casedesc, "enum %s %d %llu 1", argv[2], len, idx);
             vbuf_reset(&g_log);
             g_describe_fails = g_open_fails = 0;
             g_policy = POL_ENUM; g_step_answer = 0;
@@ -390,7 +390,7 @@ int main(int argc, char** argv)
             g_policy = okbias ? POL_GOOD : POL_RANDOM; g_fault_den = okbias == 1 ? 5 : 15;
             vrng_seed(&g_ans_rng, seed, 0x12, c);
             g_describe_fails = vrng_chance(&g, 1, 40); g_open_fails = !g_describe_fails && vrng_chance(&g, 1, 40);
-            snprintf(g_casedesc, sizeof g_casedesc, "random %llu %lu", (unsigned long long)seed, c);
+            snprintf(g_casedesc, sizeof g_casedesc, "random %llu %lu 1", (unsigned long long)seed, c);
             vbuf_reset(&g_log);
             vbuf_printf(&g_log, "%s%s%s| ", kind == K_CAM ? "cam " : "sto ", g_describe_fails ? "describe-fails " : "", g_open_fails ? "open-fails " : "");
             run_sequence(kind, ops, 0, nops);
